@@ -3,6 +3,7 @@ package main
 // Term DAG with hash-consing, light simplification and SMT-LIB printing.
 
 import (
+	"os"
 	"fmt"
 	"sort"
 	"strconv"
@@ -956,7 +957,7 @@ func Select(arr, idx *Term) *Term {
 		return Ite(in, Select(src, Add(slo, Sub(idx, lo))), Select(base, idx))
 	}
 	// an ite in the index: split on its condition and cofactor the array with it
-	if c := firstIteCond(idx); c != nil {
+	if c := firstIteCond(idx); c != nil && !(idx.bound && noLiftBound) {
 		return Ite(c, Select(cofactor(arr, c, true), cofactor(idx, c, true)), Select(cofactor(arr, c, false), cofactor(idx, c, false)))
 	}
 	if arr.Op == "ite" && (reducible(arr.Args[1]) || reducible(arr.Args[2])) {
@@ -1563,3 +1564,6 @@ func SMTScript(asserts []*Term, extra []string, named map[string]*Term) string {
 	}
 	return sb.String()
 }
+
+// noLiftBound: do not split selects on ite conditions when the index mentions quantified variables
+var noLiftBound = os.Getenv("GOVC_NOLIFT_BOUND") != ""
